@@ -791,6 +791,9 @@ func (s *Subscription) handleReaccess(t *rescache.Throttle) {
 		return
 	}
 
+	if verifhook.Enabled && s.flags&flagAccessCalled != 0 {
+		verifhook.Site("reaccess.inflight", s.c.CID(), s.rid)
+	}
 	s.queueEvents(queueReasonReaccess)
 	s.loadAccess(func(a *rescache.Access) {
 		s.validateAccess(a)
